@@ -52,7 +52,6 @@ def exhaustive(tier):
 
 
 def run_case(case, ctx):
-    d = drv.ExpandingDriver(case, ctx, P)
-    d.run()
+    d = drv.run_twins(case, ctx, P)
     ctx.nt("growth" in d.feats and ("dup" in d.feats or "forced" in d.feats))
     ctx.trace.insert(0, ["est", case["est"], "fpr", case["fpr"], case["hash"]])
